@@ -428,14 +428,16 @@ Definition step (coro heap : bool) (st : state) (x : op) : state * obs :=
       then (addlive (setg st g (Some (0, k, a))) 1, mkObs 0 0 0 (frame_new heap) c0 c0 [])
       else (st, rejected)
   | GNext g how arg =>
-      if inr g NG && (inr how 2 || ((how =? 2) && coro)) then
+      (* how mod 3: 0 next(arg) as bool, 1 gen(arg) as future, 2 co_await next(arg); how < 3: the argument is a variable
+         (passed by reference), how >= 3: it is a temporary.  Same cost, same values. *)
+      if inr g NG && inr how 6 && (inr (how mod 3) 2 || ((how mod 3 =? 2) && coro)) then
         match nth (n g) (gens st) None with
         | None => (st, rejected)
         | Some (cur, k, a) =>
             if cur <? k then (setg st g (Some (cur + 1, k, a)),
                               mkObs 0 (100 * g + cur + 1 + (if a =? 1 then 1000 * arg else 0)) 0 c0 c0 c0 [])
             else if cur =? k then (setg st g (Some (cur + 1, k, a)), mkObs 0 (-1) 0 c0 c0 c0 [])
-            else if how =? 1 then (st, rejected)
+            else if how mod 3 =? 1 then (st, rejected)
             else (st, mkObs 0 (-1) 0 c0 c0 c0 [])
         end
       else (st, rejected)
